@@ -1087,6 +1087,21 @@ class ViewNode(SVal):
         return SInt(c)
 
 
+class GivenNode(SVal):
+    """a group/dataset node object handed to copy() as source (not a path)"""
+
+    def __init__(self, name_t):
+        self.name_t = name_t
+
+    def py_getattr(self, cx, name):
+        if name == "name":
+            return SStr(self.name_t)
+        raise Unsupported(f"given source node .{name}")
+
+    def py_isinstance(self, cx, cls):
+        return False
+
+
 class GroupCopy(Writer):
     qual = "IH5Group.copy"
 
@@ -1096,9 +1111,14 @@ class GroupCopy(Writer):
         self.bindings["cast"] = lambda cx, t, v: v
 
     def setup(self, cx):
+        if cx.choose(2) == 1:
+            # the source given as a NODE (CopySource includes nodes, also of another container: h5py or another record)
+            return A(self=wnode_obj(cx), source=GivenNode(z3.String("given_node_name")), dest=SStr(z3.String("dest")), __kwargs__={})
         return A(self=wnode_obj(cx), source=SStr(z3.String("source")), dest=SStr(z3.String("dest")), __kwargs__={})
 
     def raises(self, cx, a):
+        if isinstance(a.source, GivenNode):
+            return {}
         return {"KeyError": z3.Not(VISIBLE(a.source.t))}
 
     def ensures(self, cx, a, res):
@@ -1107,6 +1127,11 @@ class GroupCopy(Writer):
         if len(calls) != 1:
             return [("one-copy", z3.BoolVal(False), "copy performs one tree copy")]
         _, src, grp, name_t, kw, _line = calls[0]
+        if isinstance(a.source, GivenNode):
+            return [
+                ("the-given-node-is-what-is-copied", z3.BoolVal(src is a.source), "a source given as a node is copied as given (it may belong to another container: nothing is looked up by its name in this record)"),
+                ("destination-relative-to-this-group", z3.And(z3.BoolVal(isinstance(grp, ViewNode) and grp.root), name_t == STRIP_SLASH(abs_path_term(n, a.dest.t))), "a relative destination is resolved against the calling group, exactly as on the single tree"),
+            ]
         ok_src = isinstance(src, ViewNode) and not src.root
         return [
             ("source-is-the-named-node", (src.path_t == abs_path_term(n, a.source.t)) if ok_src else z3.BoolVal(False), "the node named by `source` (relative to this group) is copied"),
